@@ -140,7 +140,7 @@ def build_cases(chk, cfgs, thorough):
         n = len(G)
         extra = G == ((19, 9), (9, 19))
         if thorough:
-            if n == 3 and rng.random() > 0.34 and not extra:
+            if rng.random() > {1: 1.0, 2: 0.35, 3: 0.08}[n] and not extra:
                 continue
             rng.shuffle(bs)
             for t in range(0, len(bs), 3):
